@@ -6,10 +6,11 @@
    its terms, for all finite inputs on which no operation under/overflows (`safe`, decidable: lib/SafeDec.v).
    Not proved: the step from the computed to the exact logarithm (accuracy of the platform's ln) - 400-bit oracle.
    The quartic degree has its own representation; its evaluator is treated in C10 (C10_series_accuracy_float). *)
-From Coq Require Import List ZArith Reals Lra Lia.
+From Coq Require Import List ZArith Reals Lra Lia Bool.
 From Flocq Require Import Core BinarySingleNaN.
 Require Import PP.FloatModel PP.Expr PP.FloatOps PP.FloatFacts PP.RealOps PP.ErrorBound PP.SafeDec PP.PolyFacts PP.Gen.Kernels
-  PP.Proofs.KernelBounds PP.Proofs.LogFloat.
+  PP.Proofs.KernelBounds PP.Proofs.LogFloat PP.Proofs.QuarticForm PP.Proofs.QuarticFloat PP.Proofs.QuarticClosedFloat PP.Proofs.QuarticKnotFloat
+  PP.Proofs.QuarticIntegralFloat.
 Import ListNotations.
 Local Open Scope R_scope.
 
@@ -333,4 +334,46 @@ Proof.
   split; [apply safe1_sound; vm_compute; reflexivity|].
   match goal with |- Forall _ ?l => assert (H : forallb (safeb (map of_bits [4609434218613702656; 13835058055282163712; 4598175219545276416; 4613937818241073152; 4608308318706860032; 4604930618986332160; 4597207614006925858]%Z)) l = true) by (vm_compute; reflexivity) end.
   apply Forall_forall. intros e He. apply safeb_sound. rewrite forallb_forall in H. now apply H.
+Qed.
+
+(* ---- the quartic degree: F(knot.x) = knot.y at binary64, for ANY libm.  Log<Poly4>::integral returns an IntOfLogPoly4 whose
+   constant is knot.y minus the very expression IntOfLogPoly4::evaluate adds back at knot.x; both compute x^ = -(ln_f knot.x) and
+   run the same window test on it, so per branch the composition is one libm-free term whose real value is exactly knot.y
+   (proofs/QuarticIntegralFloat.v). ---- *)
+Theorem C09_Log4_knot_float_series : forall (ln_f exp_f : F -> F) (c0 c1 c2 c3 c4 kx ky : F),
+  let xh := fneg (ln_f kx) in
+  let env := [c0; c1; c2; c3; c4; kx; ky; xh] in
+  flt (of_bits 13833752011390226268) xh && flt xh (of_bits 4610425010531724165) = true ->
+  safe env e_i4knot_series ->
+  eval (FOpsG ln_f exp_f) (evals (FOpsG ln_f exp_f) [c0; c1; c2; c3; c4; kx; ky] k_Log_Poly4__integral ++ [kx])
+       (hd (Lit 0) k_IntOfLogPoly4__evaluate) = fev env e_i4knot_series /\
+  Rabs (B2R (fev env e_i4knot_series) - B2R ky) <= 2 * INR (depth e_i4knot_series) * FloatFacts.u * absval (map B2R env) e_i4knot_series.
+Proof. exact i4knot_series_float. Qed.
+
+Theorem C09_Log4_knot_float_closed : forall (ln_f exp_f : F -> F) (c0 c1 c2 c3 c4 kx ky : F),
+  let xh := fneg (ln_f kx) in
+  let rh := fdiv (of_bits 4607182418800017408) xh in
+  let Eh := exp_f (fdiv (of_bits 4607182418800017408) rh) in
+  let env := [c0; c1; c2; c3; c4; kx; ky; xh; rh; Eh] in
+  flt (of_bits 13833752011390226268) xh && flt xh (of_bits 4610425010531724165) = false ->
+  safe env e_i4knot_closed ->
+  eval (FOpsG ln_f exp_f) (evals (FOpsG ln_f exp_f) [c0; c1; c2; c3; c4; kx; ky] k_Log_Poly4__integral ++ [kx])
+       (hd (Lit 0) k_IntOfLogPoly4__evaluate) = fev env e_i4knot_closed /\
+  Rabs (B2R (fev env e_i4knot_closed) - B2R ky) <= 2 * INR (depth e_i4knot_closed) * FloatFacts.u * absval (map B2R env) e_i4knot_closed.
+Proof. exact i4knot_closed_float. Qed.
+
+(* non-vacuity: c = (1.1, -2.3, 0.7, 3.25, -0.5), knot (1.25, -1.2) [series] and knot (7, -1.2) [closed form], with the logarithms /
+   exponential glibc returns *)
+Example C09_Log4_knot_hypotheses_hold :
+  (let xh := of_bits 13820579650861701666 in
+   flt (of_bits 13833752011390226268) xh && flt xh (of_bits 4610425010531724165) = true /\
+   safe (map of_bits [4607632778762754458; 13835733595226269286; 4604480259023595110; 4614500768194494464;
+                      13826050856027422720; 4608308318706860032; 13831455175580267315]%Z ++ [xh]) e_i4knot_series) /\
+  (let xh := of_bits 13834814456249604695 in
+   let rh := fdiv (of_bits 4607182418800017408) xh in
+   flt (of_bits 13833752011390226268) xh && flt xh (of_bits 4610425010531724165) = false /\
+   safe (map of_bits [4607632778762754458; 13835733595226269286; 4604480259023595110; 4614500768194494464;
+                      13826050856027422720; 4619567317775286272; 13831455175580267315]%Z ++ [xh; rh; of_bits 4594314991293244563]) e_i4knot_closed).
+Proof.
+  cbv zeta. split; split; [vm_compute; reflexivity|apply safe1_sound; vm_compute; reflexivity|vm_compute; reflexivity|apply safe1_sound; vm_compute; reflexivity].
 Qed.
